@@ -33,6 +33,12 @@ type Opts struct {
 	// which would turn every consumer that calls Under into a watchdog exit.
 	NullUnions bool
 	FlatOnly   bool // primitives only
+	// Names overrides the pool of record field names.
+	Names []string
+	// Strs overrides the pool of string values.
+	Strs []string
+	// TypeNames overrides the pool of names for named types.
+	TypeNames []string
 }
 
 // G generates types and values in one context.
@@ -153,8 +159,16 @@ func (g *G) newType(depth int) zed.Type {
 			if g.O.NoNamed {
 				continue
 			}
+			if g.O.TypeNames != nil {
+				g.names = g.O.TypeNames
+			}
 			name := g.names[g.S.Intn(len(g.names))]
-			t, err := g.Zctx.LookupTypeNamed(name, g.Type(depth-1))
+			inner := g.Type(depth - 1)
+			if in, ok := inner.(*zed.TypeNamed); ok && in.Name == name && g.O.TypeNames != nil {
+				// name=(name=T) has no text form (text-safe mode only).
+				inner = in.Type
+			}
+			t, err := g.Zctx.LookupTypeNamed(name, inner)
 			if err != nil {
 				continue
 			}
@@ -169,7 +183,11 @@ func (g *G) Record(depth int) *zed.TypeRecord {
 	var fields []zed.Field
 	seen := map[string]bool{}
 	for i := 0; i < n; i++ {
-		name := fieldNames[g.S.Intn(len(fieldNames))]
+		names := fieldNames
+		if g.O.Names != nil {
+			names = g.O.Names
+		}
+		name := names[g.S.Intn(len(names))]
 		if seen[name] {
 			continue
 		}
@@ -241,6 +259,9 @@ func (g *G) float64() float64 {
 
 // Str draws a string; "" is the simplest.
 func (g *G) Str() string {
+	if g.O.Strs != nil {
+		return g.O.Strs[g.S.Intn(len(g.O.Strs))]
+	}
 	if g.S.Chance(1, 10) {
 		return strings.Repeat(strs[1+g.S.Intn(len(strs)-1)], g.S.Range(1, 40))
 	}
@@ -362,9 +383,19 @@ func (g *G) prim(typ zed.Type) zcode.Bytes {
 	case zed.TypeString:
 		return zed.EncodeString(g.Str())
 	case zed.TypeIP:
-		return zed.EncodeIP(netip.MustParseAddr(ips[g.S.Intn(len(ips))]))
+		ip := ips[g.S.Intn(len(ips))]
+		if g.O.TypeNames != nil && strings.HasPrefix(ip, ":") {
+			// Text-safe mode (callers that need the ZSON formatter to
+			// round-trip): `field:::1` is ambiguous.
+			ip = "fe80::1"
+		}
+		return zed.EncodeIP(netip.MustParseAddr(ip))
 	case zed.TypeNet:
-		return zed.EncodeNet(netip.MustParsePrefix(nets[g.S.Intn(len(nets))]))
+		nt := nets[g.S.Intn(len(nets))]
+		if g.O.TypeNames != nil && strings.HasPrefix(nt, ":") {
+			nt = "fe80::/10"
+		}
+		return zed.EncodeNet(netip.MustParsePrefix(nt))
 	case zed.TypeType:
 		d := g.O.MaxDepth - 1
 		if d > 2 {
